@@ -375,6 +375,46 @@ func (p *Prog) LibReach(roots []*ssa.Function) []*ssa.Function {
 	return out
 }
 
+// LibReachDirect: library functions reachable through chains of library functions only (callees of
+// standard-library code, e.g. the io.Reader behind a bufio.Reader, are not followed).
+func (p *Prog) LibReachDirect(roots []*ssa.Function) []*ssa.Function {
+	cg := p.CG()
+	seen := map[*ssa.Function]bool{}
+	var st, out []*ssa.Function
+	for _, r := range roots {
+		if r != nil && !seen[r] {
+			seen[r] = true
+			st = append(st, r)
+		}
+	}
+	for len(st) > 0 {
+		f := st[len(st)-1]
+		st = st[:len(st)-1]
+		if !isLibFn(f) {
+			continue
+		}
+		if f.Blocks != nil {
+			out = append(out, f)
+		}
+		if n := cg.Nodes[f]; n != nil {
+			for _, e := range n.Out {
+				if !seen[e.Callee.Func] {
+					seen[e.Callee.Func] = true
+					st = append(st, e.Callee.Func)
+				}
+			}
+		}
+		for _, a := range f.AnonFuncs {
+			if !seen[a] {
+				seen[a] = true
+				st = append(st, a)
+			}
+		}
+	}
+	sortFns(out)
+	return out
+}
+
 func sortFns(fs []*ssa.Function) {
 	sort.Slice(fs, func(i, j int) bool {
 		a, b := fnName(fs[i]), fnName(fs[j])
